@@ -132,6 +132,8 @@ pub enum RewritingError {
 pub struct HtmlRewriter<'h, O: OutputSink, H: HandlerTypes = LocalHandlerTypes> {
     stream: TransformStream<HtmlRewriteController<'h, H>, O>,
     poisoned: bool,
+    #[cfg(feature = "_verif_hooks")]
+    verif_memory_limiter: SharedMemoryLimiter,
 }
 
 macro_rules! guarded {
@@ -175,6 +177,8 @@ impl<'h, O: OutputSink, H: HandlerTypes> HtmlRewriter<'h, O, H> {
 
         let memory_limiter =
             SharedMemoryLimiter::new(settings.memory_settings.max_allowed_memory_usage);
+        #[cfg(feature = "_verif_hooks")]
+        let verif_memory_limiter = memory_limiter.clone();
 
         let stream = TransformStream::new(TransformStreamSettings {
             transform_controller: HtmlRewriteController::from_settings(
@@ -195,7 +199,19 @@ impl<'h, O: OutputSink, H: HandlerTypes> HtmlRewriter<'h, O, H> {
         HtmlRewriter {
             stream,
             poisoned: false,
+            #[cfg(feature = "_verif_hooks")]
+            verif_memory_limiter,
         }
+    }
+
+    /// Verification hook: a handle to this rewriter's memory accounting.
+    #[cfg(feature = "_verif_hooks")]
+    #[must_use]
+    pub fn verif_memory_limiter(&self) -> (usize, usize) {
+        (
+            self.verif_memory_limiter.verif_usage(),
+            self.verif_memory_limiter.verif_max(),
+        )
     }
 
     /// Writes a chunk of input data to the rewriter.
